@@ -28,11 +28,30 @@ static int verif_vsnprintf(char *s, size_t n, const char *fmt, va_list ap);
 static int verif_fputc(int c, FILE *f);
 static void verif_exit(int status);
 static void verif_abort(void);
+static int verif_out(void) { return 0; }
 
+#ifdef VERIF_DFCC_SAFE
+/* goto-instrument --dfcc appends its write-set parameter after the fixed parameters, which
+ * corrupts the argument list of variadic callees that have a body; in DFCC units the output
+ * calls are therefore reduced to an argument-less stub (arguments are side-effect free). */
+#define fprintf(...) verif_out()
+#define vfprintf(...) verif_out()
+#define fputc(...) verif_out()
+#else
 #define fprintf verif_fprintf
 #define vfprintf verif_vfprintf
-#define vsnprintf verif_vsnprintf
 #define fputc verif_fputc
+#endif
+#define vsnprintf verif_vsnprintf
+#ifdef VERIF_MODEL_FLUSH
+/* calls `ERROR_flush_message_buffer()` go to a model of its contract, the definition
+ * `ERROR_flush_message_buffer( void )` is kept under the name ERROR_flush_message_buffer_real
+ * (macro dispatch on the argument list; no text of error.c is changed) */
+static void verif_flush_model(void);
+#define ERROR_flush_message_buffer(...) VERIF_FLUSH_##__VA_ARGS__
+#define VERIF_FLUSH_void ERROR_flush_message_buffer_real(void)
+#define VERIF_FLUSH_ verif_flush_model()
+#endif
 #define exit verif_exit
 #define abort verif_abort
 #include "src/express/error.c"
@@ -75,16 +94,18 @@ int nondet_int(void);
 static int verif_vsnprintf(char *s, size_t n, const char *fmt, va_list ap)
 {
     /* ISO C: writes at most n bytes (incl. NUL) to s, returns the untruncated length or <0 */
+#ifndef VERIF_DFCC_SAFE
     g_fmt_calls++;
     if (g_want_va && g_fmt_calls == g_want_va) {
         g_fmt_last = fmt;
         g_va_first = va_arg(ap, const void *);
         g_va_second = va_arg(ap, const void *);
-    } else if (fmt[0] == '%' && fmt[1] == 's' && fmt[2] == ':') {
+    } else if (g_want_va && fmt[0] == '%' && fmt[1] == 's' && fmt[2] == ':') {
         g_file_printed = va_arg(ap, const char *);
         g_line_printed = va_arg(ap, int);
         g_prefix_errnum = va_arg(ap, int);
     }
+#endif
 #ifdef VERIF_NATIVE
     if (n) s[0] = 0;
     return 0;
@@ -124,9 +145,15 @@ static void verif_abort(void)
 #include "express/express.h"
 int (*EXPRESSfail)(Express);
 char *EXPRESSprogram_name = "replay";
+#ifdef VERIF_DFCC_SAFE
 int EXPRESS_fail(Express model) { (void)model; return 1; }
+#endif
 void EXPRESSusage(int x) { (void)x; }
 #endif
 
+#ifdef VERIF_DFCC_SAFE
 #include "contracts.c"
+#else
+#include "harnesses.c"
+#endif
 VERIF_MAIN()
